@@ -245,6 +245,30 @@ def run(ctx):
                     if re.match(r"std::(unordered_)?(multi)?set<", v.get("type") or ""):
                         sets.append((bid, v["name"], v.get("type")))
         inner = [g for g in prog.fns.values() if g.id.startswith(cpc.id + "::") and g.has_cfg]
+        # a named function object handed to for_each_option plays the closure's part: its operator() instantiations are the
+        # visitors, and a reference member bound by its constructor to the letter set IS the letter set
+        alias = {}  # member name inside the function object -> name of the set in check_parser_consistency
+        for _, _, e0 in cpc.roots():
+            for n0 in elem_calls(e0):
+                if short(n0.get("name") or "") != "for_each_option":
+                    continue
+                for a0 in n0.get("args", []):
+                    a0 = ir.unwrap(a0)
+                    while isinstance(a0, dict) and a0.get("k") in ("cast", "construct") and (a0.get("copy") or a0.get("move") or a0.get("k") == "cast") and (a0.get("e") is not None or len(a0.get("args", [])) == 1):
+                        a0 = ir.unwrap(a0.get("e") if a0.get("e") is not None else a0["args"][0])
+                    if isinstance(a0, dict) and a0.get("k") == "construct" and a0.get("ctor"):
+                        ctor0 = prog.fn(a0["ctor"])
+                        if ctor0 is None or not ctor0.cls:
+                            continue
+                        inner += [g for g in prog.fns.values() if g.cls == ctor0.cls and g.op == "()" and g.has_cfg and g.kind != "lambda"]
+                        if ctor0.has_cfg:
+                            for _, _, ce in ctor0.all_elems():
+                                if ce.get("kind") == "init" and ce.get("field") and ce.get("expr") is not None:
+                                    src = ir.unwrap(ce["expr"])
+                                    if isinstance(src, dict) and src.get("k") == "ref" and src.get("decl", "").startswith("param:"):
+                                        names0 = [p0["name"] for p0 in ctor0.params]
+                                        if src["decl"][6:] in names0 and names0.index(src["decl"][6:]) < len(a0.get("args", [])):
+                                            alias[short(ce["field"])] = fmt(ir.unwrap(a0["args"][names0.index(src["decl"][6:])]))
         inner_sets = []
         for g in inner:
             for bid, i, e in g.roots():
@@ -271,7 +295,7 @@ def run(ctx):
         # every kind visited: the lambda instantiations exist for all kinds and raise parser_error on failed insertion
         kinds_seen = set()
         for g in inner:
-            if g.kind != "lambda" or not g.flags.get("instantiation"):
+            if not (g.kind == "lambda" or g.op == "()") or not g.flags.get("instantiation"):
                 continue
             pk = (g.params[0].get("type", "") if g.params else "").replace(" ", "")
             for k in kind_maps:
@@ -289,7 +313,9 @@ def run(ctx):
                                 init = ir.unwrap(v.get("init"))
                                 if isinstance(init, dict) and init.get("k") == "call" and short(init.get("name") or "") in ("emplace", "insert"):
                                     ins.append((v["name"], init))
-                    okins = len(ins) == 1 and sets and fmt(ins[0][1].get("this")) == sets[0][1] and "short_name()" in fmt(ins[0][1])
+                    recv = fmt(ins[0][1].get("this")) if ins else ""
+                    recv = alias.get(recv.replace("this->", ""), recv)
+                    okins = len(ins) == 1 and sets and recv == sets[0][1] and "short_name()" in fmt(ins[0][1])
                     ctx.check(okins, "R13.4", g, "letter-inserted:" + k, "the %s's short name is not inserted into the letter set" % k, g)
                     for b in INg:
                         if g.is_noreturn(b) and ins:
